@@ -10,11 +10,17 @@ EXTENDS AdminApiContract, Json
 VARIABLES out, steps
 gvars == <<cvars, out, steps>>
 
-GenOps(m) == [t : {"create", "update"}, n : Names, k : Kinds, mk : {m}]
+(* the content of a create / update is new (marker m = number of the step) or the very content stored under   *)
+(* that name now (its marker): requests that re-send the stored spec - an update that changes nothing in the  *)
+(* store is a successful mutation like any other, a create of the same thing a conflict                      *)
+GenOps(m) == {o \in [t : {"create", "update"}, n : Names, k : Kinds, mk : {m} \cup {objs[n].mk : n \in Names}] :
+                 o.mk = m \/ (o.mk # 0 /\ o.mk = objs[o.n].mk)}
              \cup [t : {"delete", "get"}, n : Names, k : {"none"}, mk : {0}]
              \cup {[t |-> "list", n |-> "-", k |-> "none", mk |-> 0]}
 
 IsFree(op) == op.t \in {"update", "delete"} /\ objs[op.n].k = "none"
+(* the request leaves the stored content as it is although it succeeds *)
+IsSame(op) == op.t = "update" /\ objs[op.n] = [k |-> op.k, mk |-> op.mk]
 
 GInit == CInit /\ steps = 0 /\ out = ToJson([t |-> "init", ver |-> 0])
 
@@ -24,7 +30,7 @@ GStep == /\ steps' = steps + 1
                  /\ oc.rep.st # "error"
                  /\ IsFree(op) => oc.rep.st = "other"
                  /\ objs' = oc.objs /\ ver' = oc.ver
-                 /\ out' = ToJson([t |-> op.t, n |-> op.n, k |-> op.k, mk |-> op.mk, free |-> IsFree(op),
+                 /\ out' = ToJson([t |-> op.t, n |-> op.n, k |-> op.k, mk |-> op.mk, free |-> IsFree(op), same |-> IsSame(op),
                                    st |-> oc.rep.st, rver |-> oc.rep.ver, rk |-> oc.rep.k, rmk |-> oc.rep.mk, rall |-> oc.rep.all,
                                    objs |-> oc.objs, ver |-> oc.ver])
          /\ UNCHANGED <<cst, cop, crep>>
